@@ -15,6 +15,8 @@
      Stop   the application is about to call FlushStop on side x
      Close  side x closed its connection
      EOF    the Read of side x returned io.EOF (the peer's stream was read to its end)
+     Idle   the receive routine of side x has taken every byte of the peer's stream (the writer is
+            done) and is parked in Read again: it got past every packet without failing
      Final  all goroutines of the run are done
      Reset  next run
 
@@ -76,13 +78,22 @@ TRet == /\ Is("Ret") /\ Line.x \in Sides
         /\ UNCHANGED vars /\ Step
 
 \* --- what side s puts on its stream -------------------------------------------------------------
+\* A message packet observed on the stream of side x.  The property does not prescribe HOW a message is
+\* cut into packets, so any cut is accepted here (MConn!NextPacket is the code's cut and is what (M)
+\* checks): the payload is the next Line.len <= MaxPay bytes of the channel's current message and
+\* the EOF flag is only set on a packet that completes the message.
 TPkt == /\ Is("Pkt") /\ Line.x \in Sides /\ Line.size >= 1
         /\ CASE Line.kind = "msg" ->
-                  /\ Line.ch \in Chans /\ sending[Line.x][Line.ch] # None
+                  LET m == sending[Line.x][Line.ch] IN
+                  /\ Line.ch \in Chans /\ m # None /\ CanWrite(Line.x)
                   /\ Line.size > Line.len /\ Line.size <= Line.len + 32
-                  /\ NextOf(Line.x, Line.ch, Line.size) =
-                       Pkt("msg", Line.ch, Line.eof, Line.id, Line.off, Line.len, Line.size)
-                  /\ NextPacket(Line.x, Line.ch, Line.size)
+                  /\ Line.id = m.id /\ Line.off = m.off /\ Line.len >= 0 /\ Line.len <= MaxPay
+                  /\ m.off + Line.len <= m.len
+                  /\ Line.eof \in {0, 1} /\ (Line.eof = 1 => m.off + Line.len = m.len)
+                  /\ wire' = [wire EXCEPT ![Line.x] = Append(@, Pkt("msg", Line.ch, Line.eof, m.id, m.off, Line.len, Line.size))]
+                  /\ sending' = [sending EXCEPT ![Line.x][Line.ch] = IF Line.eof = 1 THEN None ELSE [@ EXCEPT !.off = @ + Line.len]]
+                  /\ UNCHANGED <<queue, avail, recving, delivered, sent, up, flushing, flushed, eof, recvDone, errored,
+                                 mustErr, clean, credit, nmsg, ninj>>
              [] Line.kind = "pong" -> SendPong(Line.x, Line.size)
              [] Line.kind = "ping" -> SendPing(Line.x, Line.size)
              [] OTHER -> FALSE
@@ -96,9 +107,10 @@ TChunk == /\ Is("Chunk") /\ Line.x \in Sides /\ WireChunk(Line.x, Line.n) /\ Ste
 
 \* --- receive routine of side r = Peer(s) -------------------------------------------------------
 \* the next event needs the receive routine of side r to have got further
-Wants(r) == More /\ Line.act \in {"Recv", "Err", "EOF", "Close", "Ret", "Pkt"} /\ Line.x = r /\
+Wants(r) == More /\ Line.act \in {"Recv", "Err", "EOF", "Idle", "Close", "Ret", "Pkt"} /\ Line.x = r /\
             CASE Line.act = "Recv" -> TRUE
               [] Line.act = "EOF" -> TRUE
+              [] Line.act = "Idle" -> TRUE
               [] Line.act = "Err" -> ~recvDone[r]
               [] Line.act = "Close" -> ~eof[r] /\ ~recvDone[r] /\ ~(flushing[r] /\ Drained(r))
               [] Line.act = "Ret" -> ~Line.ok /\ Line.op = "Send" /\ up[r] /\ ~recvDone[r]
@@ -142,6 +154,11 @@ TClose == /\ Is("Close") /\ Line.x \in Sides
 
 TEOF == /\ Is("EOF") /\ Line.x \in Sides /\ RecvEOF(Peer(Line.x)) /\ Step
 
+\* the receive routine of x waits for more input: every packet of the stream was skipped, buffered or delivered
+TIdle == /\ Is("Idle") /\ Line.x \in Sides
+         /\ wire[Peer(Line.x)] = <<>> /\ ~recvDone[Line.x]
+         /\ UNCHANGED vars /\ Step
+
 \* end of a run: every side that hit a failing packet or the peer's close while up reported it
 TFinal == /\ Is("Final")
           /\ \A x \in Sides : mustErr[x] => errored[x]
@@ -149,7 +166,7 @@ TFinal == /\ Is("Final")
           /\ UNCHANGED vars /\ Step
 
 TNext == TReset \/ TSend \/ TRet \/ TPkt \/ TInject \/ TChunk \/ TSkip \/ TFail \/ TPop \/ TRecv \/ TErr
-         \/ TStop \/ TClose \/ TEOF \/ TFinal
+         \/ TStop \/ TClose \/ TEOF \/ TIdle \/ TFinal
 TSpec == TInit /\ [][TNext]_tvars
 
 Mark == TLCSet(1, IF l - 1 > TLCGet(1) THEN l - 1 ELSE TLCGet(1))
